@@ -157,6 +157,40 @@ check('C19',
       'TLA+ parser spec (TLC exhaustive), replay of TLC-generated docstrings through the dump command, ast check',
       'DESIGN.md section 5 (C19)', 'docparse')
 
+COLLECT_NOTE = ('Trusted: TLC; the one-format-string-per-line rendering of harness/collectlib.py (the rendered module is compiled by Python before '
+                'use). The file line list, the inventory and the ghost line numbers come from the specification; names are unique per item.')
+
+check('C07',
+      'Collect.tla models a module as items in source order with nesting depth and computes the file line list; the visitor is a stack machine '
+      '(current class, not-visited depth, overwrite of equal callnames) and DeclInventory is written from the property text; NExamples gives the '
+      'per-style count. TLC checks VisitIsDecl and UniqueNames for every module of <=3 (thorough <=4) items over 58 item kinds (def / async def / '
+      'class / if True / main guard / try / with; plain, wraps, property, setter, deleter, static, class decorators; none / freeform / google '
+      'docstrings) x 3 module docstrings. Each module is rendered and collected by the real static collector under the three styles: the set of '
+      '(callname, index) must be the predicted one, each once, identifiers unique, parse_static_calldefs = inventory. Package trees: see C17 (package_modpaths).',
+      COLLECT_NOTE, 'TLA+ visitor spec vs declarative inventory (TLC exhaustive), replay of TLC-generated modules into the real collector',
+      'DESIGN.md section 5 (C07)', 'collect')
+
+check('C08',
+      'Collect.tla computes the file as a sequence of abstract lines, so ghost positions (opening line of each docstring, first prompt of each '
+      'doctest) are indices; the model transcribes the code\'s arithmetic (docstring start from end line minus newline count with the prefix+triple '
+      'quote test, google start = tag line + 1, freeform start = lines before the first prompt). TLC checks DocOpenIsGhost and StartIsGhost over '
+      'header layouts x 1560 (quick) / 3781 (thorough) docstring layouts (6 quote styles, opening alone/shared, closing alone/after text/with '
+      'comment, 0-2 leading lines, google blocks incl. bodies starting with prose/blank = known finding F12, 1-2 groups, multi-line statements, 0-2 '
+      'want lines) after filler items and module docstrings, top-level and nested. Each module is collected under three styles and every doctest '
+      'run: doclineno, DocTest.lineno, lineno+line_offset of each part and failed_lineno() must be the ghost / predicted line (raising statement, '
+      'calling line for a helper defined in the doctest, first want line for a mismatch).',
+      COLLECT_NOTE + ' Static analysis only. F12 is carved out by signature (google block with leading text) and reported as KNOWN-FINDING.',
+      'TLA+ layout spec with ghost line numbers vs arithmetic model (TLC exhaustive), replay into collection + run',
+      'DESIGN.md section 5 (C08)', 'collect')
+
+check('C16',
+      'Collect.tla restricted to importable modules (C16_Items: functions, async functions, classes, static/class methods, properties with setters, '
+      'plain and functools.wraps decorators, definitions in if True / try / with, under the main guard and inside functions, an imported callable '
+      'that itself has doctests): VisitIsDecl for every module of <=3 (thorough <=4) items. Each module is rendered and collected with '
+      'analysis=static and analysis=dynamic under three styles: sorted (identifier, doctest source) must be equal, and equal to the prediction.',
+      COLLECT_NOTE, 'TLA+ visitor spec vs declarative inventory (TLC exhaustive), replay comparing static and dynamic collectors',
+      'DESIGN.md section 5 (C16)', 'collect')
+
 NOT_YET = ['C01', 'C02', 'C03', 'C04', 'C05', 'C07', 'C08', 'C09', 'C10', 'C11', 'C12', 'C13', 'C14', 'C15', 'C16',
            'C17', 'C18', 'C19', 'C20']
 
@@ -179,6 +213,7 @@ def main():
         'engines': [
             {'name': 'docrun', 'path': 'specs/DocRun.tla', 'serves_properties': ['C01', 'C02', 'C03', 'C04', 'C09', 'C11', 'C12'], 'kind_free_text': 'TLA+ spec of DocTest.run (run loop, directive state, want buffer, except ladder) with declarative reference; MC_DocRun.tla alphabets; TLC + replay harness runlib.py'},
             {'name': 'docparse', 'path': 'specs/DocParse.tla', 'serves_properties': ['C01', 'C13', 'C14', 'C18', 'C19', 'C20'], 'kind_free_text': 'TLA+ spec of the docstring parser (labeller, grouping, packaging, re-parse round, run set) with declarative labelling; MC_DocParse.tla alphabets; TLC prints finished docstrings, harness/parselib.py replays them'},
+            {'name': 'collect', 'path': 'specs/Collect.tla', 'serves_properties': ['C07', 'C08', 'C16'], 'kind_free_text': 'TLA+ spec of module collection (visitor stack machine, declarative inventory, file line list, docstring/doctest line arithmetic); MC_Collect.tla alphabets; harness/collectlib.py renders and compares'},
             {'name': 'match', 'path': 'specs/Match.tla', 'serves_properties': ['C05', 'C06'], 'kind_free_text': 'TLA+ spec of output matching (normalisation pipeline, ellipsis) + MatchTrace.tla trace spec; TLC'},
         ],
         'checks': [CHECKS[k] for k in sorted(CHECKS)],
